@@ -197,6 +197,15 @@ fn gen_sampled(which: Which) -> impl Fn(&mut Choices) -> GraphCase {
             inputs.push(alias(&g, i, form));
         }
         let mut recursive = false;
+        if which == Which::C02 && c.chance(1, 4) {
+            // the whole tree through a recursive scan, possibly together with file inputs: files
+            // are then discovered both as dependencies and by scans
+            if c.chance(1, 2) {
+                inputs.clear();
+            }
+            inputs.push(".".to_string());
+            recursive = true;
+        }
         if which == Which::C03 && c.chance(1, 3) {
             inputs.push((*c.pick(&[".", "s", "./s/t"])).to_string());
             recursive = c.chance(1, 2);
@@ -238,7 +247,7 @@ impl Prop for GraphProp {
             Which::C05 => PropMeta {
                 id: "C05",
                 level: "exploration",
-                rule: "cases = (digraph with self-loops, requested subset, completion order). Exhaustive scope: all 530 digraphs with self-loops on <=3 files x every non-empty requested subset x every completion order (DFS by re-execution). Sampled: generated digraphs of 3-7 files x random schedules and free-running concurrency (thorough: additionally uniformly sampled 4-file digraphs with DFS). Oracle: R = closure of the request, K = members of R that can reach a cycle (graph computation, cross-checked with the model): K non-empty => the run returns an error (and returns: logical deadlock detection) and every member of R\\K has its output equal to the model; K empty => success and all outputs equal the model. Non-trivial = K non-empty with R\\K non-empty, or K empty with >=1 edge.",
+                rule: "cases = (digraph with self-loops, requested subset, completion order). Exhaustive scope: all 530 digraphs with self-loops on <=3 files x every non-empty requested subset x every completion order (DFS by re-execution). Sampled: generated digraphs of 3-7 files x random schedules and free-running concurrency (thorough: additionally uniformly sampled 4-file digraphs with DFS). Oracle: R = closure of the request, K = members of R that can reach a cycle (graph computation, cross-checked with the model): K non-empty => the run returns an error (and returns: logical deadlock detection) and every member of R\\K has its output equal to the model; K empty => success and all outputs equal the model. A last tier takes acyclic DAGs with ONE other fault in one file (the fault cases of C04: failing or signal-killed command, bad directive, missing / invalid include, unreadable source, occupied paths, stale output under verify; build / needed / verify; controlled schedules): the run may fail, but never with a circular-dependency report. Non-trivial = K non-empty with R\\K non-empty, or K empty with >=1 edge.",
                 assumptions: vec!["hooks: feature `verif`"],
                 hang_is_violation: true,
                 needs_cli: false,
@@ -346,9 +355,25 @@ impl Prop for GraphProp {
         let chk = move |c: &GraphCase, st: &mut Stats| -> Check { check_once(c, which, st) };
         let red = |c: &GraphCase| graphs::reduce(c);
         ctx.drive(3, n, 120, &gen, &chk, &red);
+        if which == Which::C05 && ctx.stats.violations.is_empty() {
+            // "a project without cycles never gets a circular-dependency failure": acyclic DAGs
+            // with one faulty file (C04's fault cases) must fail with the real error
+            let n = ctx.share(if ctx.quick { 3_000 } else { 80_000 });
+            let gen = |c: &mut Choices| super::c04::gen_directive_case(c);
+            let chk = |c: &super::c04::Case, st: &mut Stats| -> Check {
+                st.class("acyclic_with_other_fault");
+                super::c04::check_cycle_misreport(c, st)
+            };
+            let red = |_c: &super::c04::Case| -> Vec<super::c04::Case> { vec![] };
+            ctx.drive(4, n, 200, &gen, &chk, &red);
+        }
     }
 
     fn replay(&self, case: &Value) -> Check {
+        if case.get("Directive").is_some() {
+            let c: super::c04::Case = serde_json::from_value(case.clone()).map_err(|e| (format!("bad case: {e}"), "bad-case".to_string()))?;
+            return super::c04::check_cycle_misreport(&c, &mut Stats::default());
+        }
         let case: GraphCase = serde_json::from_value(case.clone()).map_err(|e| (format!("bad case: {e}"), "bad-case".to_string()))?;
         check_once(&case, self.0, &mut Stats::default())
     }
